@@ -387,7 +387,6 @@ def run_shard(shard, tier, acc):
 
 def _step(acc, cfg, hist, op, seen):
     t, d = replay(cfg, hist)
-    was_scalar = not hasattr(getattr(t, "_values", None), "_shape")
     r = attempt(lambda: impl_apply(t, op, cfg))
     acc.trans()
     d2 = model_apply(d, op, cfg[0])
@@ -401,8 +400,9 @@ def _step(acc, cfg, hist, op, seen):
             acc.fail("assignment-with-absent-key-accepted", (op, "refused"), "accepted", classifier=_classify_step(cfg, op))
             return "bad"
         t2 = r
-    if was_scalar and hasattr(getattr(t2, "_values", None), "_shape"):
-        acc.feature("lazy_form_materialised")
+    if cfg[3].startswith("scalar") and op[0] in ("set1", "setv", "setvv", "setv_arr") and \
+            not any(h[0] in ("set1", "setv", "setvv", "setv_arr", "add") for h in hist):
+        acc.feature("lazy_form_materialised")      # first assignment into a table built in its scalar-valued form
     k = hash((canon_table(t2), repr(sorted(d2.items()))))
     if k in seen:
         return "seen"
@@ -423,8 +423,8 @@ def _observe_state(acc, cfg, hist):
     if kdt in ("int8", "uint8"):
         probe = probe + [k + 256 for k in keys[:1]]       # aliases a stored key after a cast to the key dtype
     pairs = list(itertools.product(probe, repeat=2))
-    t0, _ = replay(cfg, hist)
-    scalar_form = not hasattr(getattr(t0, "_values", None), "_shape")
+    scalar_form = (vf.startswith("scalar") and not any(h[0] in ("set1", "setv", "setvv", "setv_arr", "add") for h in hist)) or \
+        any(h[0] in ("zeros_like", "ones_like") for h in hist)
     observe_table(acc, lambda: replay(cfg, hist)[0], d, keys, mod, kdt, probe, pairs,
                   classify=_classify_factory(keys, mod, kdt, scalar_form))
 
